@@ -5,6 +5,7 @@ import ast
 import traceback
 from typing import Dict, List, Optional
 
+import os
 import z3
 
 from .contracts import Contract, Registry
@@ -185,6 +186,8 @@ def verify_function(e: Engine, qname: str) -> FunctionResult:
             else:
                 raise Unsupported(f"{o.kind} outside loop")
     except (Unsupported, BindingError) as ex:
+        if os.environ.get("PYVC_RAISE"):
+            raise
         kind = "contract-binding-error" if isinstance(ex, BindingError) else "unsupported-construct"
         res.error = f"{kind}: {ex}"
         del e.obls[start:]
